@@ -24,7 +24,13 @@
      PHttp       the boxed HTTP future (until call_with_service returns, or hyper drops the future)
      PWsPending  the spawned task, awaiting hyper::upgrade::on
      PWsSession  the spawned task, inside background_task's receive loop
-     PWsClosing  the spawned task, inside graceful_shutdown (loop already left, permit not yet dropped)
+     PWsClosing c the spawned task, inside graceful_shutdown (loop already left for cause c, permit not yet dropped).
+                 graceful_shutdown waits for the session's in-flight calls ONLY when the loop was left because the
+                 server is being stopped (`if let Ok(Shutdown::Stopped) = result`), and even then a vanished peer or a
+                 dead send task ends the wait; for every other cause -- peer close, receive error, the server's own
+                 ping/pong inactivity close -- it goes straight to conn_tx.send / send_task_handle.await and the
+                 permit is dropped no matter how many handlers of the session are still running.  That guard is read
+                 from the source on every run (gen_waits_for_pending).
      PDone       nowhere (never acquired, or dropped)
    `s_avail` is the semaphore counter; it is NOT computed from the phases: every transition changes the counter exactly
    where the code acquires or drops the permit, and Proofs/ConnGuardFacts.v shows the two views always agree.
@@ -51,11 +57,25 @@ Inductive kind :=
 
 Definition is_upgrade (k : kind) : bool := match k with KWs | KWsBad => true | _ => false end.
 
-Inductive phase := PCall | PHttp | PWsPending | PWsSession | PWsClosing | PDone.
+(* why background_task's receive loop was left *)
+Inductive cause :=
+| CPeer       (* the peer's Close frame / end of stream: Ok(ConnectionClosed), the fused receive stream is terminated *)
+| CError      (* receive error (reset, EOF without close, invalid frame): Err(e) *)
+| CInactive   (* the server's own ping/pong inactivity limit: Ok(ConnectionClosed), the receive stream is still live *)
+| CStopped.   (* server stop: Ok(Stopped) *)
+
+Definition is_stopped (c : cause) : bool := match c with CStopped => true | _ => false end.
+Definition result_is_ok (c : cause) : bool := match c with CError => false | _ => true end.
+(* can `ws_stream.try_for_each(..)` (the `disconnect` arm of the select) still be pending? *)
+Definition stream_live (c : cause) : bool := match c with CInactive | CStopped => true | _ => false end.
+
+Inductive phase := PCall | PHttp | PWsPending | PWsSession | PWsClosing (c : cause) | PDone.
 
 Definition holding (p : phase) : bool := match p with PDone => false | _ => true end.
 
-Record attempt := { a_kind : kind; a_phase : phase; a_status : N (* HTTP status produced, 0 = none (yet) *); a_handlers : N }.
+Record attempt := { a_kind : kind; a_phase : phase; a_status : N (* HTTP status produced, 0 = none (yet) *);
+                     a_handlers : N (* handler invocations so far *);
+                     a_pending : N (* WebSocket session: calls whose handler has not returned yet *) }.
 
 Record state := { s_cfg : cfg; s_avail : N; s_att : list attempt }.
 
@@ -68,8 +88,10 @@ Inductive act :=
 | Respond (i : nat)            (* HTTP future: call_with_service returned; drop(conn); Ok(rp) *)
 | DropFut (i : nat)            (* HTTP future dropped by hyper before completion (peer reset, connection error) *)
 | Upgrade (i : nat) (ok : bool)(* hyper::upgrade::on(request) resolves *)
-| WsEnd (i : nat)              (* background_task's loop breaks: peer closed / reset, protocol error, server stopped *)
-| WsFinish (i : nat).          (* graceful_shutdown returned; drop(conn) *)
+| HandlerDone (i : nat)        (* a handler of WebSocket session i returns (its task outlives the session if need be) *)
+| WsEnd (i : nat) (c : cause)  (* background_task's loop breaks *)
+| WsFinish (i : nat)           (* graceful_shutdown returns by itself (nothing to wait for, or all calls done); drop(conn) *)
+| WsPeerGone (i : nat).        (* while graceful_shutdown waits: the peer disconnects or the send task dies; drop(conn) *)
 
 (* status constants are read from transport/http.rs on every run (Gen/ConnGuardGen.v) *)
 Definition status_refused : N := gen_status_refused.
@@ -86,11 +108,20 @@ Fixpoint upd (l : list attempt) (i : nat) (f : attempt -> attempt) : list attemp
 Definition get (s : state) (i : nat) : option attempt := nth_error (s_att s) i.
 
 Definition set_phase (p : phase) (a : attempt) : attempt :=
-  {| a_kind := a_kind a; a_phase := p; a_status := a_status a; a_handlers := a_handlers a |}.
+  {| a_kind := a_kind a; a_phase := p; a_status := a_status a; a_handlers := a_handlers a; a_pending := a_pending a |}.
 Definition set_phase_status (p : phase) (st : N) (a : attempt) : attempt :=
-  {| a_kind := a_kind a; a_phase := p; a_status := st; a_handlers := a_handlers a |}.
+  {| a_kind := a_kind a; a_phase := p; a_status := st; a_handlers := a_handlers a; a_pending := a_pending a |}.
 Definition bump_handlers (a : attempt) : attempt :=
-  {| a_kind := a_kind a; a_phase := a_phase a; a_status := a_status a; a_handlers := a_handlers a + 1 |}.
+  {| a_kind := a_kind a; a_phase := a_phase a; a_status := a_status a; a_handlers := a_handlers a + 1; a_pending := a_pending a |}.
+Definition bump_call (a : attempt) : attempt :=
+  {| a_kind := a_kind a; a_phase := a_phase a; a_status := a_status a; a_handlers := a_handlers a + 1; a_pending := a_pending a + 1 |}.
+Definition call_done (a : attempt) : attempt :=
+  {| a_kind := a_kind a; a_phase := a_phase a; a_status := a_status a; a_handlers := a_handlers a; a_pending := a_pending a - 1 |}.
+
+(* graceful_shutdown has something to wait for: the guard admits this cause, the receive stream can still be pending,
+   and calls are in flight *)
+Definition shutdown_blocked (c : cause) (x : attempt) : bool :=
+  gen_waits_for_pending (is_stopped c) (result_is_ok c) && stream_live c && negb (a_pending x =? 0).
 
 (* the attempt keeps the permit *)
 Definition keep (s : state) (i : nat) (f : attempt -> attempt) : state :=
@@ -106,9 +137,9 @@ Definition step (s : state) (a : act) : state :=
   | Acquire k =>
       if s_avail s =? 0
       then {| s_cfg := s_cfg s; s_avail := s_avail s;
-              s_att := s_att s ++ [{| a_kind := k; a_phase := PDone; a_status := status_refused; a_handlers := 0 |}] |}
+              s_att := s_att s ++ [{| a_kind := k; a_phase := PDone; a_status := status_refused; a_handlers := 0; a_pending := 0 |}] |}
       else {| s_cfg := s_cfg s; s_avail := s_avail s - 1;
-              s_att := s_att s ++ [{| a_kind := k; a_phase := PCall; a_status := 0; a_handlers := 0 |}] |}
+              s_att := s_att s ++ [{| a_kind := k; a_phase := PCall; a_status := 0; a_handlers := 0; a_pending := 0 |}] |}
   | Dispatch i =>
       match get s i with
       | Some x =>
@@ -130,7 +161,7 @@ Definition step (s : state) (a : act) : state :=
       | Some x =>
           match a_phase x, a_kind x with
           | PHttp, KHttp => keep s i bump_handlers
-          | PWsSession, _ => keep s i bump_handlers
+          | PWsSession, _ => keep s i bump_call
           | _, _ => s
           end
       | None => s
@@ -154,14 +185,28 @@ Definition step (s : state) (a : act) : state :=
           end
       | None => s
       end
-  | WsEnd i =>
+  | HandlerDone i =>
       match get s i with
-      | Some x => match a_phase x with PWsSession => keep s i (set_phase PWsClosing) | _ => s end
+      | Some x => if a_pending x =? 0 then s else keep s i call_done
+      | None => s
+      end
+  | WsEnd i c =>
+      match get s i with
+      | Some x => match a_phase x with PWsSession => keep s i (set_phase (PWsClosing c)) | _ => s end
       | None => s
       end
   | WsFinish i =>
       match get s i with
-      | Some x => match a_phase x with PWsClosing => release s i (set_phase PDone) | _ => s end
+      | Some x =>
+          match a_phase x with
+          | PWsClosing c => if shutdown_blocked c x then s else release s i (set_phase PDone)
+          | _ => s
+          end
+      | None => s
+      end
+  | WsPeerGone i =>
+      match get s i with
+      | Some x => match a_phase x with PWsClosing _ => release s i (set_phase PDone) | _ => s end
       | None => s
       end
   end.
@@ -215,7 +260,9 @@ Inductive sstep :=
 | SWClose (i : nat)     (* close frame, wait for the peer *)
 | SWAbort (i : nat)     (* stream dropped without close frame *)
 | SWGarbage (i : nat)   (* invalid frame: the server ends the session *)
-| SWCloseAbort (i : nat). (* close frame, then the stream dropped without waiting *)
+| SWCloseAbort (i : nat) (* close frame, then the stream dropped without waiting *)
+| SWIdle (i : nat).     (* ws ping enabled: the client stops answering pings (TCP stays open, no Close) until the
+                           server has closed the session for inactivity, or the bounded wait is over *)
 
 Fixpoint burst_open (i k : nat) : list act :=
   match k with O => [] | S k' => Acquire KHttp :: Dispatch i :: burst_open (S i) k' end.
@@ -223,6 +270,9 @@ Fixpoint burst_drop (i k : nat) : list act :=
   match k with O => [] | S k' => DropFut i :: burst_drop (S i) k' end.
 Fixpoint count_refused (s : state) (i k : nat) : N :=
   match k with O => 0 | S k' => (if refused s i then 1 else 0) + count_refused s (S i) k' end.
+
+Definition pending_of (s : state) (i : nat) : N :=
+  match get s i with Some x => a_pending x | None => 0 end.
 
 Definition kind_of (s : state) (i : nat) : option kind :=
   match get s i with Some a => Some (a_kind a) | None => None end.
@@ -242,8 +292,10 @@ Definition script_acts (s : state) (x : sstep) : list act :=
   | SWBad i => [Acquire KWsBad; Dispatch i]
   | SWEarly i => [Acquire KWs; Dispatch i; Upgrade i false]
   | SWCall i => match kind_of s i with Some KWs => [Handler i] | _ => [] end
-  | SWRel _ => []
-  | SWClose i | SWAbort i | SWGarbage i | SWCloseAbort i => [WsEnd i; WsFinish i]
+  | SWRel i => repeat (HandlerDone i) (N.to_nat (pending_of s i))
+  | SWClose i => [WsEnd i CPeer; WsFinish i]
+  | SWAbort i | SWGarbage i | SWCloseAbort i => [WsEnd i CError; WsFinish i]
+  | SWIdle i => [WsEnd i CInactive; WsFinish i]
   end.
 
 (* status the harness can read off the socket in that step (0 = none) *)
@@ -257,6 +309,11 @@ Definition script_status (before after : state) (x : sstep) : N :=
       | None => 0
       end
   | SHBurst i k => 1000 + count_refused after i k   (* printed as b<count> *)
+  | SWIdle i =>                                        (* 1 = closed by the server (printed c), 2 = still open (o) *)
+      match get before i with
+      | Some a => match a_phase a with PWsSession => if holds after i then 2 else 1 | _ => 0 end
+      | None => 0
+      end
   | _ => 0
   end.
 
